@@ -2,7 +2,7 @@
 
 
 def run(ctx):
-    scen = ctx.gen("Document", "Gen_Document.tla", "Gen_singles.cfg" if ctx.quick else "Gen_pairs.cfg", "models", workers=4, timeout=2400, heap="12g")
+    scen = ctx.gen("Document", "Gen_Document.tla", "Gen_singles.cfg" if ctx.quick else "Gen_triples.cfg", "models", workers=4, timeout=2400, heap="12g")
     ctx.sample(scen, 2)
     trace = ctx.execute("document", scen)
     ctx.validate("Document", "Trace_Document.tla", "Trace_Document.cfg", trace, "document", parallel=12)
